@@ -10,7 +10,8 @@ IsEv(e) == l <= Len(TraceLog) /\ ev.e = e /\ l' = l + 1
 TInit == l = 1
 TReset == IsEv("reset")
 TWrap == IsEv("wrap") /\ ev.panic = "" /\ (ev.ok => ev.wiped)
-TUnwrap == IsEv("unwrap") /\ ev.panic = "" /\ (ev.ok => ev.wipedDecrypt)
+\* whether the unwrap succeeded or failed, every data key any region handed back is zero afterwards
+TUnwrap == IsEv("unwrap") /\ ev.panic = "" /\ ev.wipedDecrypt
 TNext == TReset \/ TWrap \/ TUnwrap
 TSpec == TInit /\ [][TNext]_l
 TraceAccepted == LET d == TLCGet("stats").diameter IN
